@@ -28,6 +28,9 @@ func Harness_C20_uid_roundtrip() {
 
 	verifAssert(ParseUserId(u.UserId()) == u, "usr-prefixed-roundtrip")
 	verifAssert(ParseUserId(u.PrefixId("grp")) == 0, "wrong-prefix-is-no-id")
+	// the bare base64 text, or one carrying a look-alike prefix, is not the prefixed form of anybody's id
+	verifAssert(ParseUserId(s) == 0, "missing-prefix-is-no-id")
+	verifAssert(ParseUserId("USR"+s) == 0 && ParseUserId("us"+s) == 0 && ParseUserId("usrr"+s) == 0, "look-alike-prefix-is-no-id")
 	verifAssert(strings.HasPrefix(u.FndName(), "fnd") && u.FndName()[3:] == s, "fnd-name")
 	verifReach("end")
 }
